@@ -45,6 +45,7 @@ type ScenarioSpec struct {
 	Reads    bool // clients also read the keys (C02)
 	SameKeys bool // clients collide on the same keys (C02)
 	RealDisk bool // databases on real directories: snapshots carry content (see oxc.RealDiskNext)
+	LossyRPC int  // that many coordinator RPC answers may be lost; which ones is explored
 }
 
 // Monitor is evaluated at every scheduling point and at the end.
@@ -113,6 +114,7 @@ func Body(spec ScenarioSpec, mk func() []Oracle) func(s *vsched.Sched) {
 		}
 		s.Settle()
 		s.Explore(true)
+		c.LossBudget = spec.LossyRPC
 		for cl := 0; cl < spec.Clients; cl++ {
 			cl := cl
 			vsched.Go(func() { clientLoop(c, s, obs, spec, cl) })
@@ -133,6 +135,7 @@ func Body(spec ScenarioSpec, mk func() []Oracle) func(s *vsched.Sched) {
 			s.Settle()
 		}
 		s.Explore(false)
+		c.LossBudget = 0
 		// ---- heal and establish ground truth
 		for _, name := range c.Order {
 			if !c.Nodes[name].Up {
@@ -524,7 +527,7 @@ func dbg(f string, a ...any) {
 }
 
 func faultThread(c *Cluster, s *vsched.Sched, spec ScenarioSpec) {
-	switch spec.Fault {
+	switch strings.TrimSuffix(spec.Fault, "-lossy") {
 	case "leader-crash", "leader-crash-restart":
 		l, _ := c.LeaderByStatus()
 		if l == "" {
